@@ -1,7 +1,28 @@
 package main
 
-// Self-tests (thorough tier): see variants.go once built. A self-test failure
-// is a defect of the machinery (exit 2), never a VIOLATION.
+// Thorough-tier self-test: the variant bank (variants.tsv) is a list of small
+// source rewrites of the tree under analysis. Each is applied to a scratch
+// copy of /repo's current working tree (outside /repo and /verif, removed
+// afterwards), type-checked, and analysed with the same rules:
+//   fire   — a property-breaking edit: the rules must report a new violation;
+//   silent — a behaviour-preserving edit: the rules must stay as quiet as on
+//            the unmodified tree.
+// A variant whose pattern no longer matches the tree is skipped and counted.
+// A self-test failure is a defect of the machinery, never a VIOLATION.
+
+import (
+	_ "embed"
+	"fmt"
+	"io"
+	"io/fs"
+	"os"
+	"path/filepath"
+	"regexp"
+	"strings"
+)
+
+//go:embed variants.tsv
+var variantBank string
 
 type selfTestResult struct {
 	Run     int      `json:"variants_run"`
@@ -10,6 +31,222 @@ type selfTestResult struct {
 	Lines   []string `json:"results"`
 }
 
-func runSelfTests(prop string, c *Ctx) *selfTestResult { return nil }
+type variant struct {
+	prop, expect, file, pattern, repl, note string
+}
 
-func cmdSelftest(args []string) int { return 0 }
+func loadVariants(prop string) []variant {
+	var out []variant
+	for _, line := range strings.Split(variantBank, "\n") {
+		if line == "" || strings.HasPrefix(line, "#") {
+			continue
+		}
+		f := strings.Split(line, "\t")
+		if len(f) < 5 || f[0] != prop {
+			continue
+		}
+		v := variant{prop: f[0], expect: f[1], file: f[2], pattern: f[3], repl: f[4]}
+		if len(f) > 5 {
+			v.note = f[5]
+		}
+		out = append(out, v)
+	}
+	return out
+}
+
+func unescape(s string) string {
+	r := strings.NewReplacer(`\n`, "\n", `\t`, "\t", `\\`, `\`)
+	return r.Replace(s)
+}
+
+func copyTree(src, dst string) error {
+	return filepath.WalkDir(src, func(path string, d fs.DirEntry, err error) error {
+		if err != nil {
+			return err
+		}
+		rel, _ := filepath.Rel(src, path)
+		if d.IsDir() {
+			if d.Name() == ".git" {
+				return filepath.SkipDir
+			}
+			return os.MkdirAll(filepath.Join(dst, rel), 0o755)
+		}
+		if !d.Type().IsRegular() {
+			return nil
+		}
+		in, err := os.Open(path)
+		if err != nil {
+			return err
+		}
+		defer in.Close()
+		out, err := os.Create(filepath.Join(dst, rel))
+		if err != nil {
+			return err
+		}
+		defer out.Close()
+		_, err = io.Copy(out, in)
+		return err
+	})
+}
+
+// unexpected counts violated/undecided obligations that are not known findings.
+func unexpected(c *Ctx) map[string]bool {
+	known, _ := loadKnown()
+	out := map[string]bool{}
+	for _, o := range c.Obls {
+		if o.st == Discharged {
+			continue
+		}
+		isKnown := false
+		if o.st == Violated {
+			for _, k := range known {
+				if k.prop == c.Prop && k.rule == o.Rule && k.key == o.Key {
+					isKnown = true
+				}
+			}
+		}
+		if !isKnown {
+			out[o.Rule+"|"+o.Key] = true
+		}
+	}
+	return out
+}
+
+func runSelfTests(prop string, base *Ctx) *selfTestResult {
+	res := &selfTestResult{}
+	vs := loadVariants(prop)
+	if len(vs) == 0 {
+		return res
+	}
+	baseline := unexpected(base)
+	spec := registry[prop]
+	for i, v := range vs {
+		label := fmt.Sprintf("%s #%d (%s) %s", v.expect, i+1, v.file, v.note)
+		src, err := os.ReadFile(filepath.Join(repoDir(), v.file))
+		if err != nil {
+			res.Skipped++
+			res.Lines = append(res.Lines, "skipped "+label+": file not found")
+			continue
+		}
+		re, err := regexp.Compile(v.pattern)
+		if err != nil {
+			res.Failed++
+			res.Lines = append(res.Lines, "FAILED "+label+": bad pattern: "+err.Error())
+			continue
+		}
+		locs := re.FindAllIndex(src, -1)
+		if len(locs) != 1 {
+			res.Skipped++
+			res.Lines = append(res.Lines, fmt.Sprintf("skipped %s: pattern matches %d times on this tree", label, len(locs)))
+			continue
+		}
+		dir, err := os.MkdirTemp("", "ivq-selftest-")
+		if err != nil {
+			res.Failed++
+			res.Lines = append(res.Lines, "FAILED "+label+": "+err.Error())
+			continue
+		}
+		func() {
+			defer os.RemoveAll(dir)
+			if err := copyTree(repoDir(), dir); err != nil {
+				res.Failed++
+				res.Lines = append(res.Lines, "FAILED "+label+": copy: "+err.Error())
+				return
+			}
+			edited := append([]byte{}, src[:locs[0][0]]...)
+			edited = append(edited, []byte(unescape(v.repl))...)
+			edited = append(edited, src[locs[0][1]:]...)
+			if err := os.WriteFile(filepath.Join(dir, v.file), edited, 0o644); err != nil {
+				res.Failed++
+				res.Lines = append(res.Lines, "FAILED "+label+": "+err.Error())
+				return
+			}
+			p, err := Load(dir, "")
+			if err != nil {
+				res.Skipped++
+				res.Lines = append(res.Lines, "skipped "+label+": variant does not type-check on this tree")
+				return
+			}
+			c := NewCtx(p, prop, "thorough")
+			func() {
+				defer func() {
+					if r := recover(); r != nil {
+						c.Unk(prop+".internal", "panic", 0, fmt.Sprint(r))
+					}
+				}()
+				for _, r := range spec.rules {
+					r(c)
+				}
+			}()
+			res.Run++
+			got := unexpected(c)
+			fresh := 0
+			var first string
+			for k := range got {
+				if !baseline[k] {
+					fresh++
+					if first == "" || k < first {
+						first = k
+					}
+				}
+			}
+			switch v.expect {
+			case "fire":
+				if fresh > 0 {
+					res.Lines = append(res.Lines, fmt.Sprintf("ok %s: reported %s", label, first))
+				} else {
+					res.Failed++
+					res.Lines = append(res.Lines, "FAILED "+label+": the rules stayed silent on a property-breaking edit")
+				}
+			case "silent":
+				if fresh == 0 {
+					res.Lines = append(res.Lines, "ok "+label+": silent")
+				} else {
+					res.Failed++
+					res.Lines = append(res.Lines, fmt.Sprintf("FAILED %s: false alarm %s on a behaviour-preserving edit", label, first))
+				}
+			}
+		}()
+	}
+	for _, l := range res.Lines {
+		fmt.Println("selftest:", l)
+	}
+	return res
+}
+
+// cmdSelftest runs the bank for one property (or all) against the current tree.
+func cmdSelftest(args []string) int {
+	props := args
+	if len(props) == 0 || props[0] == "all" {
+		props = nil
+		for id := range registry {
+			props = append(props, id)
+		}
+	}
+	failed := 0
+	for _, prop := range props {
+		if prop == "-p" {
+			continue
+		}
+		spec := registry[prop]
+		if spec == nil {
+			continue
+		}
+		p, err := Load(repoDir(), "")
+		if err != nil {
+			fmt.Fprintln(os.Stderr, err)
+			return 2
+		}
+		c := NewCtx(p, prop, "thorough")
+		for _, r := range spec.rules {
+			r(c)
+		}
+		st := runSelfTests(prop, c)
+		fmt.Printf("selftest %s: run=%d skipped=%d failed=%d\n", prop, st.Run, st.Skipped, st.Failed)
+		failed += st.Failed
+	}
+	if failed > 0 {
+		return 2
+	}
+	return 0
+}
